@@ -102,6 +102,27 @@ theorem undeclared_detected (dec : Dec) (reds : List Redaction) (m : Manifest) (
   have := cnt_pos_of_mem ha rfl
   omega
 
+/-- **`sig_check_ignores_embedded_payload`.** The signature check — and with it the whole claim
+verification — never depends on a payload embedded in the COSE_Sign1 of the signature box: two
+decoders that agree on everything except the payload slot of the signature give the same result,
+and a claim that differs from the signed bytes is reported whatever the payload slot holds (in
+particular when it holds exactly the signed bytes). -/
+theorem sig_check_ignores_embedded_payload (dec dec' : Dec) (reds : List Redaction) (m : Manifest)
+    (hk : ∀ b, (dec.sigOf b).key = (dec'.sigOf b).key ∧ (dec.sigOf b).signed = (dec'.sigOf b).signed)
+    (hd : dec.decl = dec'.decl) :
+    verifyClaim dec reds m = verifyClaim dec' reds m ∧
+    ((dec.sigOf m.sigBox).signed ≠ m.claim → Failure.sigMismatch m.label ∈ (verifyClaim dec reds m).log) := by
+  constructor
+  · unfold verifyClaim checkSig payloadUsed
+    rw [(hk m.sigBox).2, hd]
+  · intro h
+    unfold verifyClaim checkSig payloadUsed
+    simp [h]
+
+/-- the forged store of the statement: payload slot = the signed bytes, claim changed -/
+example : (verifyClaim ⟨fun _ => ⟨1, [7], some [7]⟩, fun _ => [], fun _ => [], fun _ => []⟩ []
+    ⟨"m", 2, [8], [], [], []⟩).log = [.sigMismatch "m"] := by decide
+
 /-- a changed claim under the same signature value is always reported -/
 theorem claim_change_detected (dec : Dec) (reds : List Redaction) (m : Manifest)
     (h : (dec.sigOf m.sigBox).signed ≠ m.claim) : (verifyClaim dec reds m).log ≠ [] := by
@@ -357,7 +378,7 @@ theorem v1_redacted_unbound (reds : List Redaction) (r : IngRef) (t : Manifest)
   simp [hr, this]
 
 def exDec : Dec :=
-  ⟨fun _ => ⟨1, [7]⟩, fun _ => [⟨.relative, ⟨"a", 0⟩, [1]⟩, ⟨.relative, ⟨"b", 0⟩, [2]⟩], fun _ => [], fun _ => []⟩
+  ⟨fun _ => ⟨1, [7], none⟩, fun _ => [⟨.relative, ⟨"a", 0⟩, [1]⟩, ⟨.relative, ⟨"b", 0⟩, [2]⟩], fun _ => [], fun _ => []⟩
 def exM (as : List AssertionBox) : Manifest := ⟨"m", 2, [7], [], as, []⟩
 
 /-- **`order_not_covered`**: the same boxes in a different order verify just as well (the reader
@@ -377,7 +398,7 @@ example : verifyClaim exDec [] (exM [⟨⟨"a", 0⟩, [1]⟩, ⟨⟨"b", 0⟩, [
 
 /-- hashed URIs with a repeated (label, instance) -/
 def dupDec : Dec :=
-  ⟨fun _ => ⟨1, [7]⟩, fun _ => [⟨.relative, ⟨"a", 0⟩, [1]⟩, ⟨.relative, ⟨"a", 0⟩, [1]⟩], fun _ => [], fun _ => []⟩
+  ⟨fun _ => ⟨1, [7], none⟩, fun _ => [⟨.relative, ⟨"a", 0⟩, [1]⟩, ⟨.relative, ⟨"a", 0⟩, [1]⟩], fun _ => [], fun _ => []⟩
 
 /-- **`duplicate_uri_unbound`**: without the distinctness hypothesis `every_assertion_bound`
 fails — a claim that lists the same (label, instance) twice lets a second box of that key with
@@ -393,12 +414,12 @@ theorem duplicate_uri_unbound :
 /-- redaction of instance 1 of a label, and a changed instance 2 of the same label: reported
 (non-vacuity of `sibling_instance_still_bound`) -/
 example : (verifyClaim
-    ⟨fun _ => ⟨1, [7]⟩, fun _ => [⟨.relative, ⟨"n", 1⟩, [1]⟩, ⟨.relative, ⟨"n", 2⟩, [2]⟩], fun _ => [], fun _ => []⟩
+    ⟨fun _ => ⟨1, [7], none⟩, fun _ => [⟨.relative, ⟨"n", 1⟩, [1]⟩, ⟨.relative, ⟨"n", 2⟩, [2]⟩], fun _ => [], fun _ => []⟩
     [⟨"self#jumbf=/c2pa/m/c2pa.assertions/n__1", "m", ⟨"n", 1⟩⟩]
     (exM [⟨⟨"n", 1⟩, [0]⟩, ⟨⟨"n", 2⟩, [9]⟩])).log = [.assertionMismatch "m" ⟨"n", 2⟩] := by decide
 /-- … while the redacted instance itself may carry anything -/
 example : (verifyClaim
-    ⟨fun _ => ⟨1, [7]⟩, fun _ => [⟨.relative, ⟨"n", 1⟩, [1]⟩, ⟨.relative, ⟨"n", 2⟩, [2]⟩], fun _ => [], fun _ => []⟩
+    ⟨fun _ => ⟨1, [7], none⟩, fun _ => [⟨.relative, ⟨"n", 1⟩, [1]⟩, ⟨.relative, ⟨"n", 2⟩, [2]⟩], fun _ => [], fun _ => []⟩
     [⟨"self#jumbf=/c2pa/m/c2pa.assertions/n__1", "m", ⟨"n", 1⟩⟩]
     (exM [⟨⟨"n", 1⟩, [0]⟩, ⟨⟨"n", 2⟩, [2]⟩])).log = [] := by decide
 
